@@ -33,6 +33,17 @@ CHECKS = {
        '= fidelity for all 256^n inputs of those lengths.',
   note=TRUST + 'Outside: lengths above the bound, maildir re-serialisation, header value parsing by the email package, BINARY decoding.',
   technique='symbolic execution of the real Python code with z3 (per-path SMT proof obligations), bounded by message length'),
+ 'C04': dict(
+  text='Bounded symbolic execution with an unbounded symbolic UID counter: histories (<= 3 quick / 4 thorough) of APPEND, '
+       'expunge-highest, COPY (same and other mailbox), MOVE, RENAME, STATUS on the real dict backend through do_command; a ghost set '
+       'of every UID ever assigned per mailbox object proves each new UID greater than all earlier ones (also after expunging the '
+       'highest), UIDNEXT > every existing UID and <= the next UID assigned, APPENDUID = stored UID, UIDs and UIDVALIDITY travel with '
+       'RENAME. COPYUID: for symbolic increasing (source, destination) pairs the rendered response code is re-parsed with the real '
+       'parser, expanded and zipped back to the pairs. dovecot-uidlist header and record lines round-trip for symbolic numbers, '
+       'file names and field values.',
+  note=TRUST + 'Outside: maildir UID assignment across restart/crash (C15), concurrent appenders inside one command, UIDVALIDITY '
+       'collision of a re-created mailbox.',
+  technique='symbolic execution of the real code with z3; unbounded symbolic UID counter, ghost set of assigned UIDs'),
  'C05': dict(
   text='Exhaustive exploration of the abstract state x command table (4 pre-states x 46 command forms: every built-in '
        'command with valid/invalid arguments, existing/missing mailboxes) through the real connection loop '
